@@ -146,6 +146,13 @@ def check_tree(ctx, u, lab, m):
 
     # ---------------- R4
     R = 'C13-R4'
+    # queries keep no state between calls: a work queue with static / thread storage would carry
+    # nodes of an earlier (possibly early-exited) traversal, or of another tree, into this one
+    for nm, fs in sorted(m.items()):
+        for i, f in enumerate(fs):
+            for v in persistent_locals(f):
+                ctx.check(reset_before_use(v, f), R, '%s::%s#%d|no-persistent-state|%s' % (lab, nm, i, v.get('name')), v, 'persistent local is reset before use',
+                          '`%s` in %s has %s storage and is not emptied before use: nodes queued by an earlier call (an early-exiting exists(), another tree, a destroyed tree) are visited by this one' % (v.get('name'), nm, 'thread-local' if v.get('tls') else 'static'))
     wi, ex = one(m, 'within', 2), one(m, 'exists', 2)
 
     def skeleton(f):
